@@ -9,8 +9,8 @@ from . import common, tools
 
 ID = "C06"
 LEVEL = "exploration"
-BUDGET = {"quick": 1200, "thorough": 32000}
-WALL_CAP = {"quick": 420, "thorough": 3300}
+BUDGET = {"quick": 24000, "thorough": 480000}
+WALL_CAP = {"quick": 600, "thorough": 5400}
 RULE = ("case = a generated 3D mesh and TWO plotfiles on it with independently drawn binary layouts (same files/same "
         "order, same files/another on-disk order, different files; monotone or not in either) and independently drawn "
         "field sets (overlapping names possible) x field selections (None or name lists per side; API string/list "
